@@ -17,7 +17,35 @@ fn point(rng: &mut Rng) -> u32 {
     }
 }
 
+/// segments shape: cut the alphabet at a few clustered points and make every segment an interval or a gap.
+/// Produces adjacent intervals, single-character holes, coverage from 0 and up to MAXC (or MAXC-1).
+pub fn gen_segments(rng: &mut Rng, max_n: usize) -> Ivs {
+    let k = 1 + rng.usize(2 * max_n);
+    let mut cuts: Vec<u32> = (0..k).map(|_| point(rng)).collect();
+    if rng.chance(1, 3) {
+        cuts.push(MAXC);
+    }
+    if rng.chance(1, 4) {
+        cuts.push(1);
+    }
+    cuts.push(0);
+    cuts.sort_unstable();
+    cuts.dedup();
+    let p_interval = [50u64, 65, 85, 100][rng.usize(4)];
+    let mut out: Ivs = Vec::new();
+    for (i, &lo) in cuts.iter().enumerate() {
+        let hi = if i + 1 < cuts.len() { cuts[i + 1] - 1 } else { MAXC };
+        if rng.below(100) < p_interval && out.len() < max_n + 4 {
+            out.push((lo, hi));
+        }
+    }
+    out
+}
+
 pub fn gen_intervals(rng: &mut Rng, max_n: usize) -> Ivs {
+    if rng.chance(2, 5) {
+        return gen_segments(rng, max_n);
+    }
     match rng.below(20) {
         0 => return vec![],
         1 => return vec![(0, MAXC)],
